@@ -367,6 +367,9 @@ def check(ctx):
     ctx.rule("R9", "identical device writes on both paths: the blocking and the awaitable set-value callback, interpreted on a model connection with pairwise distinct pack type / config version / log version, each emit exactly one datagram, byte-identical to each other and to the command builder called with every field by parameter name")
     from ..writemodel import device_writes
     device_writes(ctx, repo, "R9")
+    ctx.rule("R11", "temperature items read back what was written: for every 16-bit word, both units and both writers, writing the value the item presents for that word hands the same word to the device write (C14's exhaustive float read-back on the reader's / writers' own float programs, borrowed)")
+    from .c14 import exact_read_back
+    exact_read_back(ctx.borrowed("R11", "C14"), repo, "R6")
     ctx.rule("R10", "no other item changes: within one table, two items whose bit fields share a bit and of which one is writable exist only where the published layout (baseline pin of the audited commit) already has them - a table edit that widens a field into its neighbour, or moves an item onto another, makes a write change another item although every merge stays inside its own mask")
     field_overlaps(ctx, repo, T, "R10")
     from ..cfg import cfg_of
